@@ -311,7 +311,8 @@ func VerifC03Tx1() {
 // (repeated pages, growth after shrink, ...).
 func VerifC03Two() {
 	ctx := context.Background()
-	maxN, maxF := verifC03Bounds()
+	// thorough: the first transaction may have two frames and the second's frames any validity; sizes as quick
+	maxN, maxF := 2, 2
 	w, m := verifC03Setup(1 + rt.Choose("n0", maxN))
 	m.verifStartWAL(ctx, w, true)
 	m.verifC03Tx(ctx, w, 1+rt.Tier(), true)
